@@ -31,6 +31,9 @@ fn run_uninterrupted(vm: &mut Vm, text: &str) -> (String, u64) {
 
 /// sliced stream: force a full collection at every slice boundary (placement of collections is free)
 static FORCE_GC_AT_SLICE: std::sync::atomic::AtomicBool = std::sync::atomic::AtomicBool::new(false);
+/// sliced stream: at every third slice boundary a form the COMPILER REJECTS is submitted (`prepare_eval` returns an
+/// error): it installs nothing and must leave the suspended evaluation resumable (seed C07e-1)
+static REJECTED_FORM_AT_SLICE: std::sync::atomic::AtomicBool = std::sync::atomic::AtomicBool::new(false);
 
 /// run one form in slices; returns (rendered outcome, per-slice (kind, instructions))
 fn run_sliced(vm: &mut Vm, text: &str, budgets: &mut dyn FnMut() -> usize, max_slices: usize)
@@ -53,6 +56,14 @@ fn run_sliced(vm: &mut Vm, text: &str, budgets: &mut dyn FnMut() -> usize, max_s
                 slices.push(('p', n));
                 if FORCE_GC_AT_SLICE.load(std::sync::atomic::Ordering::Relaxed) {
                     vm.verif_force_gc();
+                }
+                if REJECTED_FORM_AT_SLICE.load(std::sync::atomic::Ordering::Relaxed) && slices.len() % 3 == 1 {
+                    let bad = ["(if)", "()", "(lambda)", "(set! 1 2)", "(quote)"][slices.len() % 5];
+                    if let Ok((c, _)) = marwood::parse::parse_text(bad) {
+                        if vm.prepare_eval(&c).is_ok() {
+                            return ("rejected-form-accepted".into(), slices);
+                        }
+                    }
                 }
             }
             Ok(Some(c)) => {
@@ -380,6 +391,7 @@ fn main() {
                 let (mut va, la) = new_vm();
                 let (mut vb, lb) = new_vm();
                 FORCE_GC_AT_SLICE.store(case % 4 == 1, std::sync::atomic::Ordering::Relaxed);
+                REJECTED_FORM_AT_SLICE.store(case % 5 == 2, std::sync::atomic::Ordering::Relaxed);
                 let mut dead = false;
                 for text in &texts {
                     if std::env::var("VERIF_DEBUG_CASE").is_ok() {
